@@ -180,3 +180,26 @@ def rule_name_cache(model, rep, R):
     fills = [n for n in walk_no_nested(fn) if isinstance(n, ast.If) and ast.unparse(n.test) == "cache_by_name"]
     rep.check(len(fills) == 1 and any("cache" in ast.unparse(x) and "name" in ast.unparse(x) for x in ast.walk(fills[0])), R, site("lookup_hash") + " by-name fill",
               f"{len(fills)} `if cache_by_name:` blocks", "names are filed only under `if cache_by_name:`")
+
+
+def rule_hash_const(model, rep, R):
+    """_get_hash_const() resolves a *digest* name: an attribute of hashlib is taken as the constructor only for names hashlib lists as
+    algorithms -- hashlib also has attributes that are no digests (scrypt, pbkdf2_hmac, file_digest, algorithms_available)"""
+    fn = model.func(D, "_get_hash_const")
+    unit = model.unit(D)
+    s = site("_get_hash_const")
+    gets = [c for c in walk_no_nested(fn) if isinstance(c, ast.Call) and ast.unparse(c.func) == "getattr" and len(c.args) >= 2 and ast.unparse(c.args[0]) == "hashlib"]
+    if len(gets) != 1:
+        rep.undecided(R, s, f"{len(gets)} getattr(hashlib, ...) calls")
+        return
+    guards = []
+    cur = gets[0]
+    while cur is not None and cur is not fn:
+        par = unit.parent(cur)
+        if isinstance(par, ast.If) and any(cur is x or any(cur is y for y in ast.walk(x)) for x in par.body):
+            guards.append(ast.unparse(par.test))
+        cur = par
+    ok = any("hashlib.algorithms_guaranteed" in g or "hashlib.algorithms_available" in g for g in guards)
+    rep.check(ok, R, s, f"getattr(hashlib, name) under {guards or ['no test']}", "hashlib attributes are used as constructors only for names in hashlib.algorithms_guaranteed / algorithms_available",
+              witness="lookup_hash('scrypt') / compile_hmac('file_digest', k) raise TypeError; scram.verify(pw, '$scram$6400$<salt>$sha-1=<d>,scrypt=YWJjZA') raises TypeError('scrypt() missing required argument') "
+                      "where an unknown name such as 'foo=' answers False")
